@@ -383,10 +383,13 @@ def merge_eval(it, thunk, key=None):
         ck = (key, tuple(c.sexpr() for c in parent.pc))
         hit = _MERGE_CACHE.get(ck)
         if hit is not None:
+            for ax in hit[2]:
+                parent.axiom(ax)
             return hit[0]
+    n_ax = len(parent.axioms)
     r = _merge_eval(it, thunk)
     if ck is not None:
-        _MERGE_CACHE[ck] = (r, list(parent.pc))     # keep the terms alive so their ids stay unique
+        _MERGE_CACHE[ck] = (r, list(parent.pc), list(parent.axioms[n_ax:]))
     return r
 
 
@@ -405,6 +408,9 @@ def _merge_eval(it, thunk):
         sub.counter = parent.counter + 1000 * guard
         for c in parent.pc:
             sub.solver.add(c)
+        for c in parent.axioms:
+            sub.solver.add(c)
+        sub._axiom_keys = set(parent._axiom_keys)
         sub.flags = parent.flags
         if parent.has_quant:
             sub.has_quant = True
@@ -421,6 +427,8 @@ def _merge_eval(it, thunk):
             res = False
         finally:
             sub.undo_narrowing()
+        for ax in sub.axioms:
+            parent.axiom(ax)
         for i in range(len(prefix), len(sub.trace)):
             ch, n = sub.trace[i]
             for alt in range(ch + 1, n):
@@ -447,6 +455,9 @@ def merge_value(it, thunk):
         sub.counter = parent.counter + 1000 * guard
         for c in parent.pc:
             sub.solver.add(c)
+        for c in parent.axioms:
+            sub.solver.add(c)
+        sub._axiom_keys = set(parent._axiom_keys)
         sub.flags = parent.flags
         if parent.has_quant:
             sub.has_quant = True
@@ -464,6 +475,8 @@ def merge_value(it, thunk):
             raise OutOfReach(str(u))
         finally:
             sub.undo_narrowing()
+        for ax in sub.axioms:
+            parent.axiom(ax)
         for i in range(len(prefix), len(sub.trace)):
             ch, n = sub.trace[i]
             for alt in range(ch + 1, n):
@@ -587,6 +600,10 @@ class Loops(object):
         if is_for:
             mod = [m for m in mod if m not in stored_names([s.target])]
         kname = spec.index_name
+        # values at loop entry are visible to the invariant as old_<name>
+        for m in mod:
+            if frame.has(m):
+                frame.locals['old_' + m] = frame.lookup(m)
         # 1. invariant holds on entry
         if is_for:
             frame.locals[kname] = 0
@@ -736,23 +753,26 @@ class Axioms(object):
 
     def str_int(self, it, t):
         # str(int): non-empty; digits only for non-negative values; str(0..9) single digit by StrFromCode
-        it.ctx.assume(z3.Length(py_str_int(t)) >= 1)
-        it.ctx.assume(z3.Implies(z3.And(t >= 0, t <= 9), py_str_int(t) == z3.StrFromCode(48 + t)))
+        it.ctx.axiom(z3.Length(py_str_int(t)) >= 1)
+        it.ctx.axiom(z3.Implies(z3.And(t >= 0, t <= 9), py_str_int(t) == z3.StrFromCode(48 + t)))
 
     def int_text(self, it, s):
-        pass
+        # int(text) accepts every non-empty string of ASCII digits and reads it as a non-negative number
+        digits = z3.Plus(z3.Range(z3.StringVal('0'), z3.StringVal('9')))
+        it.ctx.axiom(z3.Implies(z3.InRe(s, digits), z3.And(py_int_ok(s), py_int(s) >= 0)))
 
     def int_base(self, it, s, b):
-        it.ctx.assume(z3.Implies(z3.Not(z3.PrefixOf(z3.StringVal('-'), B.py_strip_ws(s))), B.py_int_base(s, b) >= 0))
+        it.ctx.axiom(z3.Implies(z3.Not(z3.PrefixOf(z3.StringVal('-'), B.py_strip_ws(s))), B.py_int_base(s, b) >= 0))
 
     def hex(self, it, i):
         h = B.py_hex(i)
-        it.ctx.assume(z3.Implies(i >= 0, z3.And(z3.PrefixOf(z3.StringVal('0x'), h), z3.Length(h) >= 3)))
-        it.ctx.assume(z3.Implies(i < 0, z3.And(z3.PrefixOf(z3.StringVal('-0x'), h), z3.Length(h) >= 4)))
+        it.ctx.axiom(z3.Implies(i >= 0, z3.And(z3.PrefixOf(z3.StringVal('0x'), h), z3.Length(h) >= 3)))
+        it.ctx.axiom(z3.Implies(i < 0, z3.And(z3.PrefixOf(z3.StringVal('-0x'), h), z3.Length(h) >= 4)))
 
     def case_fn(self, it, which, s):
         f = py_upper if which == 'upper' else py_lower
-        it.ctx.assume(z3.Length(f(s)) == z3.Length(s)) if False else None   # not true for e.g. German sharp s: not assumed
+        # lengths are not preserved in general (sharp s), but empty text maps to empty text and only to it
+        it.ctx.axiom((z3.Length(f(s)) == 0) == (z3.Length(s) == 0))
 
     def replace_all(self, it, s, old, new):
         f = z3.Function('py_replace', z3.StringSort(), z3.StringSort(), z3.StringSort(), z3.StringSort())
@@ -781,10 +801,10 @@ class Axioms(object):
         if what == 'sum':
             if ek <= frozenset((BOOL, INT)):
                 r = Sym(f(s), (INT,))      # a sum of ints/bools is an int
-                it.ctx.assume(REC[INT](f(s)))
+                it.ctx.axiom(REC[INT](f(s)))
             elif ek <= NUMERIC:
                 r = Sym(f(s), (INT, FLOAT))
-                it.ctx.assume(z3.Or(REC[INT](f(s)), REC[FLOAT](f(s))))
+                it.ctx.axiom(z3.Or(REC[INT](f(s)), REC[FLOAT](f(s))))
             else:
                 raise OutOfReach('sum over a sequence that may hold non-numbers')
         else:
@@ -796,7 +816,7 @@ class Axioms(object):
         it.ctx.flags.add('ext:sorted')
         s = seq.pay(LIST)
         r = mk_list(f(s))
-        it.ctx.assume(z3.Length(f(s)) == z3.Length(s))
+        it.ctx.axiom(z3.Length(f(s)) == z3.Length(s))
         self.world.copy_elem_kinds(seq, r)
         r.fresh = True
         return r
@@ -820,19 +840,19 @@ class Axioms(object):
         y, m, d, hh, mi, ss, us = ts
         ok = civil_ok(*ts)
         # necessary conditions of validity (the exact day-of-month rule stays inside the uninterpreted predicate)
-        it.ctx.assume(z3.Implies(ok, z3.And(y >= 1, y <= 9999, m >= 1, m <= 12, d >= 1, d <= 31, hh >= 0, hh <= 23,
+        it.ctx.axiom(z3.Implies(ok, z3.And(y >= 1, y <= 9999, m >= 1, m <= 12, d >= 1, d <= 31, hh >= 0, hh <= 23,
                                             mi >= 0, mi <= 59, ss >= 0, ss <= 59, us >= 0, us <= 999999)))
-        it.ctx.assume(z3.Implies(z3.And(y >= 1, y <= 9999, m >= 1, m <= 12, d >= 1, d <= 28, hh >= 0, hh <= 23,
+        it.ctx.axiom(z3.Implies(z3.And(y >= 1, y <= 9999, m >= 1, m <= 12, d >= 1, d <= 28, hh >= 0, hh <= 23,
                                         mi >= 0, mi <= 59, ss >= 0, ss <= 59, us >= 0, us <= 999999), ok))
         c = civil_us(*ts)
-        it.ctx.assume(z3.Implies(ok, z3.And(
+        it.ctx.axiom(z3.Implies(ok, z3.And(
             date_field['year'](c) == y, date_field['month'](c) == m, date_field['day'](c) == d,
             date_field['hour'](c) == hh, date_field['minute'](c) == mi, date_field['second'](c) == ss,
             date_field['microsecond'](c) == us, c >= 0)))
 
     def date_fields(self, it, us):
         f = date_field
-        it.ctx.assume(z3.And(f['year'](us) >= 1, f['year'](us) <= 9999, f['month'](us) >= 1, f['month'](us) <= 12,
+        it.ctx.axiom(z3.And(f['year'](us) >= 1, f['year'](us) <= 9999, f['month'](us) >= 1, f['month'](us) <= 12,
                              f['day'](us) >= 1, f['day'](us) <= 31, f['hour'](us) >= 0, f['hour'](us) <= 23,
                              f['minute'](us) >= 0, f['minute'](us) <= 59, f['second'](us) >= 0, f['second'](us) <= 59,
                              f['weekday'](us) >= 0, f['weekday'](us) <= 6))
@@ -848,13 +868,13 @@ class Axioms(object):
 
         def elt(it2):
             sub = Frame(frame.module, parent=frame)
-            it2.ctx.assume(z3.And(j >= 0, j < n))
+            it2.ctx.axiom(z3.And(j >= 0, j < n))
             it2.assign(g.target, item(j), sub)
             return it2.eval(e.elt, sub)
         term = merge_value(it, elt)
         r = ctx.fresh(SeqVal, 'comp')
-        ctx.assume(z3.Length(r) == n)
-        ctx.assume(z3.ForAll([j], z3.Implies(z3.And(j >= 0, j < n), r[j] == term)))
+        ctx.axiom(z3.Length(r) == n)
+        ctx.axiom(z3.ForAll([j], z3.Implies(z3.And(j >= 0, j < n), r[j] == term)))
         out = mk_list(r)
         out.fresh = True
         self.world.set_elem_kinds(out, term_kinds(term))
@@ -992,9 +1012,9 @@ class SpecAPI(object):
             if LIST not in ek:
                 return seq
             j = z3.Int('flat!j')
-            ctx.assume(z3.Implies(z3.ForAll([j], z3.Implies(z3.And(j >= 0, j < z3.Length(seq)), z3.Not(REC[LIST](seq[j])))),
-                                  flat_f(seq) == seq))
-            ctx.assume(z3.ForAll([j], z3.Implies(z3.And(j >= 0, j < z3.Length(flat_f(seq))), z3.Not(REC[LIST](flat_f(seq)[j])))))
+            ctx.axiom(z3.Implies(z3.ForAll([j], z3.Implies(z3.And(j >= 0, j < z3.Length(seq)), z3.Not(REC[LIST](seq[j])))),
+                                 flat_f(seq) == seq))
+            ctx.axiom(z3.ForAll([j], z3.Implies(z3.And(j >= 0, j < z3.Length(flat_f(seq))), z3.Not(REC[LIST](flat_f(seq)[j])))))
             ctx.flags.add('spec:flat(nested) uninterpreted')
             return flat_f(seq)
 
@@ -1091,6 +1111,42 @@ class SpecAPI(object):
         it.ctx.flags.add('spec:parity_true is unconstrained symbolically (bounded only)')
         raise OutOfReach('parity_true: parity of a sum over a symbolic sequence (bounded only)')
 
+    def s_is_cell_label(self, it, a, k):
+        """ the statement's label shape: optional $, letters, optional $, digits - and nothing else """
+        from . import lexre
+        v = a[0]
+        if isinstance(v, str):
+            import re
+            return re.match(r'\$?[A-Za-z]+\$?[0-9]+\Z', v) is not None
+        s = as_sym(v)
+        if it.ctx.narrow(s) != STR:
+            return False
+        P = lexre.Parsed(r'^\$?[A-Za-z]+\$?[0-9]+\Z')
+        return it.ctx.branch(z3.InRe(s.pay(STR), P.fullmatch_language()))
+
+    def s_col_label(self, it, a, k):
+        """ bijective base-26 column label of a zero-based index (upper case); '' for negative indices.  Uninterpreted
+            symbolically: facts about it come from the exhaustive native enumeration (C19), not from the solver """
+        s = as_sym(a[0])
+        if it.ctx.narrow(s) not in (INT, BOOL):
+            raise OutOfReach('col_label of non-integer')
+        n = int_term(it.ctx, s)
+        f = z3.Function('col_label', z3.IntSort(), z3.StringSort())
+        it.ctx.flags.add('spec:col_label uninterpreted (bijection decided by exhaustive enumeration)')
+        it.ctx.axiom(z3.Implies(n >= 0, z3.Length(f(n)) >= 1))
+        return mk_str(z3.If(n < 0, z3.StringVal(''), f(n)))
+
+    def s_col_value(self, it, a, k):
+        s = as_sym(a[0])
+        if it.ctx.narrow(s) != STR:
+            raise OutOfReach('col_value of non-text')
+        f = z3.Function('col_value', z3.StringSort(), z3.IntSort())
+        g = z3.Function('col_label', z3.IntSort(), z3.StringSort())
+        it.ctx.flags.add('spec:col_value uninterpreted (bijection decided by exhaustive enumeration)')
+        t = s.pay(STR)
+        it.ctx.axiom(f(t) >= 0)
+        return mk_int(f(t))
+
     def s_collapse_spaces(self, it, a, k):
         return self.world.builtins.x_re_sub(it, [' {2,}', ' ', a[0]], {})
 
@@ -1107,6 +1163,7 @@ class SpecAPI(object):
         s = as_sym(a[0])
         if it.ctx.narrow(s) != STR:
             return False
+        self.world.axioms.int_text(it, s.pay(STR))
         return it.ctx.branch(py_int_ok(s.pay(STR)))
 
     def s_float_of_text(self, it, a, k):
